@@ -1,9 +1,11 @@
 package main
 
 import (
+	"verif.local/mc/harness/c17"
 	"verif.local/mc/harness/c19"
 )
 
 func init() {
+	register("C17", "exploration", c17.Run)
 	register("C19", "exploration", c19.Run)
 }
